@@ -598,6 +598,18 @@ func suiteCompare(o *Out, thorough bool, seed int64) {
 			emitEval(o, "[m.a === m.b, m.a == m.b, m.a !== null]", 0, "-", wmap("m", wmap("a", x, "b", y)), true)
 		}
 	}
+	// the same number in every Go type the data can hold it in (Go integer types of equal width and signedness -
+	// uint and uint64 - are still different types, and values below a member or an element are not normalised):
+	// every ordered pair, at the top level, below a member and inside arrays
+	{
+		same := []string{"Ii:5", "Ii8:5", "Ii16:5", "Ii32:5", "Ii64:5", "Iu:5", "Iu8:5", "Iu16:5", "Iu32:5", "Iu64:5", "Iup:5", "G" + hx([]byte("5")), "g" + hx([]byte("5")), "D+:5:0", "D+:50:-1", ws("5"), "Ii8:-5", "Iu8:251", "T", "Ii:1", "Iu8:1"}
+		for _, x := range same {
+			for _, y := range same {
+				emitEval(o, "[a == b, a === b, a != b, a !== b, a < b, a >= b, a + b, a - b]", 0, "-", wmap("a", x, "b", y), true)
+				emitEval(o, "[m.a == m.b, m.a === m.b, m.a !== m.b, m.a <= m.b, xs[0] == xs[1], xs[0] === xs[1], includes(xs, b), '' + xs, '' + m]", 0, "-", wmap("m", wmap("a", x, "b", y), "xs", "A2 "+x+" "+y, "b", y), true)
+			}
+		}
+	}
 	rowsBlock(o, r, []string{"a < b", "a > b", "a <= b", "a >= b", "a == b", "a != b", "a === b", "a !== b", "[a < b, a == b, a > b]", "a < b ? 'lt' : a > b ? 'gt' : 'no'", "min(a, b) <= max(a, b)"}, 60)
 	for i := 0; i < n; i++ {
 		a, b := randOperand(r), randOperand(r)
@@ -1198,7 +1210,7 @@ var bridgeArgVals = []string{"N", "T", "F", "Ii:0", "Ii:5", "D-:25:-1", "D+:3:0"
 	"Dnan", "Dinf", "D-inf", "D+:9223372036854775808:0", "D+:9223372036854775807:0", "D-:9223372036854775809:0", "D+:1:19", "D-:1:19", "D+:1:400", "D+:1:3", "D+:12:17", "D+:5:0", "D+:300:0", "D-:129:0", "D+:127:0", "D-:128:0",
 	"D+:40000:0", "D+:2147483648:0", "D-:2147483649:0", "D+:1677721700000000000000001:-17", "D+:1000000059604644775390625000000001:-33", "D+:100000005960464478:-17", "D+:1000000059604644775390625:-24", "D+:34028235677973366:22",
 	"A2 Ii:65 Ii:66", "A2 Ii64:65 Ii32:66", "A3 Ii:1 G312e35 T", "A1 A2 D+:1:0 N", "A2 N " + "S61", "O2 S61 Ii:1 S62 S78", "O2 S61 N S62 Ii:1", "O1 S6b A1 N", "Pd", "Ps", "g302e3130303030303030313439303131363132", ws(""), ws("txt"), ws("12"),
-	"A0", "A2 D+:1:0 D+:2:0", "A2 " + ws("a") + " " + ws("b"), "A2 D+:1:0 N", wmap("k", "D+:1:0"), "O0", "M1700000000000000000:0", "P", "G" + hx([]byte("1.5")), "Iu8:7"}
+	"A0", "A2 D+:1:0 D+:2:0", "A2 " + ws("a") + " " + ws("b"), "A2 D+:1:0 N", wmap("k", "D+:1:0"), "O0", "M1700000000000000000:0", "P", "G" + hx([]byte("1.5")), "Iu8:7", "Iup:65", "Iu64:66"}
 
 var bridgeTypes = []string{"s", "b", "i", "i8", "i16", "i32", "i64", "f32", "f64", "a", "d", "t", "[s", "[d", "[a", "[i", "{a", "{s", "u8", "Ns", "Nb", "Ni", "Ni32", "Ni64", "Nf32", "Nf64", "Na", "N[s", "[Ns", "[Ni64", "{Ns"}
 
@@ -1261,7 +1273,7 @@ func suiteBridge(o *Out, thorough bool, seed int64) {
 		}
 	}
 	// results: returned Go numbers are normalised; errors abort; wrong result count
-	for _, res := range []string{"Ii:7", "Ii32:-7", "Ii64:9007199254740993", "G" + hx([]byte("0.1")), "Ii8:7", "Iu:7", ws("s"), "N", "T", "A1 Ii:1", "Pd", "P", "g302e3130303030303030313439303131363132", "G4e614e", "G2d496e66", "M86400000000000:3600", "O1 S6b Ii:0", structWire(0)} {
+	for _, res := range []string{"Ii:7", "Ii32:-7", "Ii64:9007199254740993", "G" + hx([]byte("0.1")), "Ii8:7", "Iu:7", "Iup:7", ws("s"), "N", "T", "A1 Ii:1", "Pd", "P", "g302e3130303030303030313439303131363132", "G4e614e", "G2d496e66", "M86400000000000:3600", "O1 S6b Ii:0", structWire(0)} {
 		for _, fail := range []bool{false, true} {
 			for _, nres := range []int{2, 1, 3} {
 				h := hostSpec{id: 1, nres: nres, fail: fail, params: []string{"a"}, result: res}
